@@ -32,6 +32,7 @@ FLAVOURS = {
     'asan': dict(cxx='g++', flags=['-O1', '-fsanitize=address,undefined', SAN_OFF, '-fno-sanitize-recover=all',
                                    '-D_GLIBCXX_SANITIZE_VECTOR'], ld=[]),  # the compile flags (which also reach the link step) already select the runtimes
     'tsan': dict(cxx='g++', flags=['-O1', '-fsanitize=thread'], ld=['-pthread']),
+    'plain': dict(cxx='g++', flags=['-O1'], ld=[]),
     'plain0': dict(cxx='g++', flags=['-O1', '-ftrivial-auto-var-init=zero'], ld=['-rdynamic', '-ldl']),
     'plainP': dict(cxx='g++', flags=['-O1', '-ftrivial-auto-var-init=pattern'], ld=['-rdynamic', '-ldl']),
     'fuzz': dict(cxx='clang++', flags=['-O1', '-fsanitize=fuzzer-no-link,address,undefined',
